@@ -12,7 +12,7 @@ REDUCTIONS = ("sum", "mean", "max", "min", "amax", "amin", "norm", "prod", "std"
 AXIS_MIXERS = ("flatten", "reshape", "view", "permute", "transpose", "repeat", "expand", "repeat_interleave", "roll",
                "flip", "t", "T", "broadcast_to", "expand_as", "tile", "squeeze", "unsqueeze")
 SCOPE = ("torchsde._core.methods", "torchsde._core.base_sde", "torchsde._core.base_solver", "torchsde._core.interp",
-         "torchsde._core.misc")
+         "torchsde._core.misc", "torchsde._brownian")
 
 # (function qualname, statement digest-free description) -> reason.  One line each, confirmed by reading.
 TABLED = {
@@ -107,7 +107,8 @@ def axis_scan(model, scope=SCOPE):
                 # indexing the leading axis of a tensor: x[0], x[:1], x[0:1] -- only flagged on state-like names
                 base = n.value
                 if isinstance(base, ast.Name) and base.id in ("y0", "y1", "y", "y_prime", "y0_prime", "f", "g", "g_prod",
-                                                              "I_k", "I_k0", "dW", "z0", "z1", "f0", "f1", "g0", "g1"):
+                                                              "I_k", "I_k0", "dW", "z0", "z1", "f0", "f1", "g0", "g1", "W", "H", "A", "Wi", "Hi", "Ai",
+                                                              "noise", "X1", "X2", "out_W", "out_H"):
                     idx = n.slice.elts[0] if isinstance(n.slice, ast.Tuple) else n.slice
                     if isinstance(idx, ast.Constant) and isinstance(idx.value, int):
                         out.append((fi, n, f"`{ast.unparse(n)}` selects one batch row", bool(tabled), tabled))
